@@ -9,17 +9,18 @@ import (
 )
 
 var summaryFields = map[string][]string{
-	"Rollout":        {"spec.disabled", "spec.strategy.paused", "status.phase", "status.blueGreenStatus.currentStepIndex", "status.blueGreenStatus.nextStepIndex", "status.blueGreenStatus.currentStepState", "status.blueGreenStatus.finalisingStep", "status.canaryStatus.currentStepIndex", "status.canaryStatus.nextStepIndex", "status.canaryStatus.currentStepState", "status.canaryStatus.finalisingStep", "status.canaryStatus.canaryRevision", "status.conditions", "metadata.finalizers", "metadata.deletionTimestamp"},
-	"BatchRelease":   {"spec.releasePlan.batchPartition", "spec.releasePlan.batches", "spec.releasePlan.finalizingPolicy", "spec.releasePlan.rolloutID", "status.phase", "status.canaryStatus.currentBatch", "status.canaryStatus.batchState", "status.observedGeneration", "metadata.generation", "metadata.finalizers", "metadata.deletionTimestamp"},
-	"Deployment":     {"spec.replicas", "spec.paused", "spec.strategy", "spec.minReadySeconds", "spec.template.spec.containers", "metadata.annotations", "metadata.labels", "status.replicas", "status.updatedReplicas", "status.readyReplicas", "status.availableReplicas", "metadata.finalizers", "metadata.deletionTimestamp"},
-	"CloneSet":       {"spec.replicas", "spec.updateStrategy", "spec.minReadySeconds", "spec.template.spec.containers", "metadata.annotations", "metadata.labels", "status.replicas", "status.updatedReplicas", "status.updatedReadyReplicas", "status.readyReplicas", "status.currentRevision", "status.updateRevision"},
-	"ReplicaSet":     {"spec.replicas", "status.replicas", "spec.minReadySeconds", "status.availableReplicas", "status.readyReplicas"},
-	"Service":        {"spec.selector"},
-	"Ingress":        {"metadata.annotations", "spec.rules"},
-	"HTTPRoute":      {"spec.rules"},
-	"VirtualService": {"spec", "metadata.annotations"},
-	"Pod":            {"metadata.labels", "status.conditions"},
-	"TrafficRouting": {"status.phase", "metadata.finalizers"},
+	"Rollout":                 {"spec.disabled", "spec.strategy.paused", "status.phase", "status.blueGreenStatus.currentStepIndex", "status.blueGreenStatus.nextStepIndex", "status.blueGreenStatus.currentStepState", "status.blueGreenStatus.finalisingStep", "status.canaryStatus.currentStepIndex", "status.canaryStatus.nextStepIndex", "status.canaryStatus.currentStepState", "status.canaryStatus.finalisingStep", "status.canaryStatus.canaryRevision", "status.conditions", "metadata.finalizers", "metadata.deletionTimestamp"},
+	"BatchRelease":            {"spec.releasePlan.batchPartition", "spec.releasePlan.batches", "spec.releasePlan.finalizingPolicy", "spec.releasePlan.rolloutID", "status.phase", "status.canaryStatus.currentBatch", "status.canaryStatus.batchState", "status.observedGeneration", "metadata.generation", "metadata.finalizers", "metadata.deletionTimestamp"},
+	"Deployment":              {"spec.replicas", "spec.paused", "spec.strategy", "spec.minReadySeconds", "spec.template.spec.containers", "metadata.annotations", "metadata.labels", "status.replicas", "status.updatedReplicas", "status.readyReplicas", "status.availableReplicas", "metadata.finalizers", "metadata.deletionTimestamp"},
+	"CloneSet":                {"spec.replicas", "spec.updateStrategy", "spec.minReadySeconds", "spec.template.spec.containers", "metadata.annotations", "metadata.labels", "status.replicas", "status.updatedReplicas", "status.updatedReadyReplicas", "status.readyReplicas", "status.currentRevision", "status.updateRevision"},
+	"ReplicaSet":              {"spec.replicas", "status.replicas", "spec.minReadySeconds", "status.availableReplicas", "status.readyReplicas"},
+	"Service":                 {"spec.selector"},
+	"Ingress":                 {"metadata.annotations", "spec.rules"},
+	"HTTPRoute":               {"spec.rules"},
+	"VirtualService":          {"spec", "metadata.annotations"},
+	"Pod":                     {"metadata.labels", "status.conditions"},
+	"TrafficRouting":          {"status.phase", "metadata.finalizers"},
+	"HorizontalPodAutoscaler": {"spec.scaleTargetRef"},
 }
 
 // Summarize renders the interesting field changes of a write on one line.
